@@ -642,6 +642,36 @@ func ruleStoreKeys(c *Ctx, p *Prog, rule string) {
 				}
 			}
 		}
+		if !ok && len(rs) == 1 {
+			// … or a concatenation of constants and strconv.Quote(<component>): %q is strconv.Quote
+			nparams, fine := 0, true
+			var walk func(v ssa.Value, d int)
+			walk = func(v ssa.Value, d int) {
+				if d > 8 {
+					fine = false
+					return
+				}
+				if bo, isB := v.(*ssa.BinOp); isB && bo.Op == token.ADD {
+					walk(bo.X, d+1)
+					walk(bo.Y, d+1)
+					return
+				}
+				if _, isC := ConstString(v); isC {
+					return
+				}
+				if q := CallResult(v, 0, "strconv.Quote"); q != nil {
+					if pr, isP := q.Call.Args[0].(*ssa.Parameter); isP && pr.Parent() == f {
+						nparams++
+						return
+					}
+				}
+				fine = false
+			}
+			walk(ReturnValue(rs[0], 0), 0)
+			if fine && nparams == kf.n {
+				ok = true
+			}
+		}
 		c.Check(rule, "key-injective:"+kf.fn, p, f.Pos(), ok, "the key is fmt.Sprintf with every component quoted (%q): distinct (backend ID, request ID) pairs give distinct keys", "key constructor "+kf.fn+": "+why+": components containing the delimiter make different (backend ID, request ID) pairs collide, so one backend's agent can read or answer another backend's requests")
 	}
 	ruleCacheKeysByUse(c, p, rule)
